@@ -20,8 +20,8 @@ ASSUMPTIONS = [
     "the reference is passed explicitly when formats are compared, so that all three input formats share it",
 ]
 MIN_NONTRIVIAL = {"quick": 100, "thorough": 1000}
-REQUIRED = {"quick": {"relations_checked": 900, "format_comparisons": 30, "full_rank_distance_checks": 30, "refit_relations": 100, "jit_relations_checked": 300, "bigbatch_relations": 8},
-            "thorough": {"relations_checked": 9000, "format_comparisons": 400, "full_rank_distance_checks": 400, "refit_relations": 1000, "jit_relations_checked": 3000, "bigbatch_relations": 80}}
+REQUIRED = {"quick": {"relations_checked": 900, "format_comparisons": 30, "full_rank_distance_checks": 30, "refit_relations": 100, "jit_relations_checked": 300, "bigbatch_relations": 8, "truncated_rows": 30},
+            "thorough": {"relations_checked": 9000, "format_comparisons": 400, "full_rank_distance_checks": 400, "refit_relations": 1000, "jit_relations_checked": 3000, "bigbatch_relations": 80, "truncated_rows": 300}}
 
 
 def plan(tier, seed):
@@ -35,7 +35,9 @@ def plan(tier, seed):
 def gen_case(r):
     return {"npts": r.randint(6, 18), "dim": r.choice([2, 3, 5]), "n": r.randint(4, 9), "ntest": r.randint(3, 7), "nref": r.choice([1, 4, 9]),
             "metric": r.choice(["cosine", "euclidean"]), "method": r.choice(["LOT_exact", "LOT_exact", "LOT_sinkhorn", "Sinkhorn"]),
-            "memory_size": r.choice(["2G", "2G", "1k"]), "density": r.choice([0.25, 0.5]), "seed": r.randrange(10**6)}
+            "memory_size": r.choice(["2G", "2G", "1k"]), "density": r.choice([0.25, 0.5]), "seed": r.randrange(10**6),
+            # truncation to the heaviest max_distribution_size points (weights are all distinct, so the kept set is determined)
+            "mds": r.choice([None, None, None, None, 2, 3, 5])}
 
 
 def _measures(rs, n, npts, density):
@@ -79,6 +81,10 @@ def check_case(ctx, c):
 
     nc = min(n, c["nref"] * dim)
     common = dict(n_components=nc, metric=c["metric"], random_state=11, memory_size=c["memory_size"])
+    mds = c.get("mds") if method == "LOT_exact" else None
+    if mds is not None:
+        common["max_distribution_size"] = mds
+        ctx.count("truncated_rows", int(np.sum(np.diff(Xt.indptr) > mds)))
     try:
         if method == "Sinkhorn":
             est = V.SinkhornVectorizer(**common)
@@ -125,14 +131,14 @@ def check_case(ctx, c):
     vpad = np.vstack([vec, rs.normal(size=(k, dim)) * 10 + shift])
     if not rel("zero-weight-padding", Xpad, vpad):
         return
-    # (d) split a support point into duplicates sharing its mass
+    # (d) split a support point into duplicates sharing its mass (not a symmetry once the heaviest-k truncation is active)
     j = int(rs.randint(npts))
     A = Xt.toarray()
     share = rs.uniform(0.2, 0.8)
     extra = A[:, j] * share
     A2 = np.hstack([A, extra[:, None]])
     A2[:, j] = A[:, j] - extra
-    if not rel("split-support-point", sp.csr_matrix(A2), np.vstack([vec, vec[j : j + 1]])):
+    if mds is None and not rel("split-support-point", sp.csr_matrix(A2), np.vstack([vec, vec[j : j + 1]])):
         return
     # (e) explicit stored zeros
     Z = Xt.tocoo()
@@ -188,7 +194,7 @@ def check_case(ctx, c):
         try:
             dl, vl = _lil(X, vec)
             dlt, vlt = _lil(Xt, vec)
-            kw = dict(n_components=nc, metric=c["metric"], random_state=11, memory_size=c["memory_size"])
+            kw = dict(common)
             e_l = V.WassersteinVectorizer(input_method="lil", **kw).fit(dl, vectors=vl, reference_vectors=refv, reference_distribution=refd)
             t_l = e_l.transform(dlt, vectors=vlt)
             e_g = V.WassersteinVectorizer(input_method="generator", generator_vector_dim=dim, generator_n_distributions=n, **kw)
@@ -219,7 +225,7 @@ def check_case(ctx, c):
         Xn = normalize(X.astype(np.float64), norm="l1").tocsr()
         vv = vec / np.linalg.norm(vec, axis=1, keepdims=True) if c["metric"] == "cosine" else vec
         raw = lot_vectors_sparse_internal(Xn.indptr, Xn.indices, Xn.data.astype(np.float64), np.ascontiguousarray(vv), refv, refd, metric=named_distances[c["metric"]],
-                                          max_distribution_size=256, chunk_size=256, spherical_vectors=(c["metric"] == "cosine"))
+                                          max_distribution_size=256 if mds is None else mds, chunk_size=256, spherical_vectors=(c["metric"] == "cosine"))
         ctx.count("full_rank_distance_checks")
         d_raw, d_emb = pdist(raw), pdist(est.embedding_)
         rtol = 1e-6 if c["memory_size"] == "2G" else 1e-3
